@@ -79,7 +79,7 @@ fn run(args: Vec<String>) -> i32 {
 
     let mut idx = match only { Some(n) => n, None => { let mut s = shard; while s < from { s += nshards; } s } };
     while idx < total {
-        cur.write_all_at(format!("{:<20}", idx).as_bytes(), 0).ok();
+        cur.write_all_at(format!("{:<20}", if w.slow_case(idx) { format!("{}L", idx) } else { idx.to_string() }).as_bytes(), 0).ok();
         if only.is_some() {
             let d = w.describe(idx);
             writeln!(log, "{}", json::obj(&[("t", json::esc("begin")), ("idx", idx.to_string()), ("case", if d.is_empty() { "null".into() } else { d })])).ok();
